@@ -190,6 +190,13 @@ class SocketModule(object):
 
     def __init__(self):
         self.created = []
+        self.default_timeout = None     # process-wide default of new sockets (socket.setdefaulttimeout)
+
+    def setdefaulttimeout(self, t):
+        self.default_timeout = t
+
+    def getdefaulttimeout(self):
+        return self.default_timeout
 
     def socket(self, *a):
         s = SimSocket()
